@@ -117,7 +117,13 @@ def _search_blocks_for_fe(input_path: str, thread_idx: int, block_starts: List[i
                         except BaseException:
                             pass
                     # Convert the Timestamp to an integer.
-                    p1_time_raw = Timestamp._INVALID if math.isnan(p1_time.seconds) else int(p1_time.seconds)
+                    # The index stores whole seconds in a 32-bit field whose all-ones value means "no P1 time". A time
+                    # that does not fit (e.g., a non-canonical timestamp with a huge nanoseconds field) is stored as
+                    # "no P1 time" rather than overflowing the field.
+                    if math.isnan(p1_time.seconds) or not (0 <= p1_time.seconds < Timestamp._INVALID):
+                        p1_time_raw = Timestamp._INVALID
+                    else:
+                        p1_time_raw = int(p1_time.seconds)
                     if _logger.isEnabledFor(logging.getTraceLevel(depth=3)):
                         _logger.trace(f'Thread {thread_idx}, block {i}: message={header.message_type.to_string()}, '
                                       f'file_offset={absolute_offset} B, p1_time={p1_time}',
